@@ -378,6 +378,34 @@ def eval_driver(cfg, res=None):
     return out
 
 
+def eval_int(kind, par, res=None):
+    """integer-valued data handed over as int64/int32 arrays: the time step is that of the same values as floats, bit for bit"""
+    out = []
+    model = space.make_model((kind, par) if kind != "burgers" else (kind,))
+    data = space.int_cons_lattice(kind)
+    n = data[0].size
+    m = space.mesh_from_widths(widths_for(n), 0.0)
+    disc = space.modeldisc.fvm(model, m, space.xnum.extrapol1())
+    with np.errstate(all="ignore"):
+        ref = np.asarray(disc.calc_timestep(space.field.fdata(model, m, [d.copy() for d in data]), 0.5), float)
+        for dt in (np.int64, np.int32):
+            got = np.asarray(disc.calc_timestep(space.field.fdata(model, m, [d.astype(dt) for d in data]), 0.5), float)
+            if res is not None:
+                res.evals += n
+                res.nontrivial += n
+            if not space.same_bits(got, ref):
+                out.append(("C18/%s/integer-typed-data" % kind, "%s %r: calc_timestep of %s data %r is %r, of the same values as float64 %r" % (
+                    kind, par, np.dtype(dt).name, [d.tolist() for d in data], got.tolist(), ref.tolist()), 0))
+    return out
+
+
+def shard_int(cfg):
+    res = core.Res()
+    for s, w, i in eval_int(cfg[0], cfg[1], res):
+        res.violation(s, w, {"kind": "int", "cfg": list(cfg)})
+    return res
+
+
 def shard_point(cfg):
     res = core.Res()
     for s, w, i in eval_pointwise(cfg, res):
@@ -421,6 +449,7 @@ def run(ctx):
         cfgs += [("euler1d", 1.4, {"tier": "quick", "widths": mode}), ("nozzle", 5.0 / 3.0, {"tier": "quick", "widths": mode}),
                  ("shallowwater", 9.81, {"widths": mode}), ("convection", -1.5, {"widths": mode}), ("burgers", None, {"widths": mode})]
     ctx.pmap("pointwise", shard_point, cfgs)
+    ctx.pmap("integer-typed-data", shard_int, [("euler1d", 1.4), ("euler1d", 5.0 / 3.0), ("shallowwater", 9.81), ("shallowwater", 1.0), ("convection", -1.5), ("burgers", None)])
     loc = []
     for kind, par in (("euler1d", 1.4), ("shallowwater", 9.81), ("convection", -1.5), ("burgers", None)):
         for n in ((1, 2, 3, 4) if th else (1, 2, 3)):
@@ -445,6 +474,8 @@ def replay(case):
     if k == "point":
         cfg = tuple(case["cfg"])
         return [(s, w) for s, w, i in eval_pointwise(cfg) if i == case["index"]]
+    if k == "int":
+        return [(s, w) for s, w, i in eval_int(case["cfg"][0], case["cfg"][1])]
     if k == "local":
         c = case["cfg"]
         return [(s, w) for s, w, i in eval_locality((c[0], c[1], tuple(c[2])))]
